@@ -544,3 +544,12 @@ func (c *Ctx) Watch(limit time.Duration, key, what string, replay any, level str
 	})
 	return func() { t.Stop() }
 }
+
+// Repo is the kyber tree under test: /repo, or the scratch worktree of a seeded-change run (bin/check
+// with VERIF_REPO; the harness binaries are then built with -modfile pointing at it).
+func Repo() string {
+	if r := os.Getenv("VERIF_REPO"); r != "" {
+		return r
+	}
+	return "/repo"
+}
